@@ -24,6 +24,8 @@ def tables(tier, rnd):
               ('t', '-s', [('title', '"A, B"'), ('sz', None)])])
     T.append([('.well-known/core', '--', [('rt', 'x')]), ('b', 'os', [('rt', '""'), ('rel', 'a b c')]), ('bb', '--', [('rt', 'b')])])
     T.append([('x', '--', [('rt', 'a')]), ('x/y', '--', [('rt', 'ab')]), ('xy', '--', [('rt', 'a b')]), ('', '--', [('rt', 'abc')])])
+    # a value whose last token is shorter than a prefix pattern (the comparison must not run past the value)
+    T.append([('q', '--', [('rt', 'alpha b'), ('rel', '"first c"')]), ('q2', '--', [('rt', '"b"')])])
     T.append([('p%d' % i, rnd.choice(('--', 'o-', '-s')), [('rt', 'r%d' % (i % 3))] if i % 2 else []) for i in range(12)])
     for _ in range(2 if tier == 'quick' else 30):
         n = rnd.randint(1, 6)
@@ -44,6 +46,10 @@ FILTERS = ['-', 'rt=temperature-c', 'rt=light-lux', 'rt=core.s', 'rt=temp*', 'rt
            'href=/p1*', 'href=/x', 'href=/x*', 'href=/', 'nosuch=1', 'rt=zzz', 'sz=1', 'rt', 'rt=', '=x']
 
 
+MUST = ['rt=bravo*', 'rel=cdefg*', 'rt=b*', 'rt=alpha', 'rt=b', 'rel=first']       # in the quick tier too
+FILTERS += [f for f in MUST if f not in FILTERS]
+
+
 def run(pid, tier):
     t0 = time.time()
     rnd = random.Random(V.seed() * 7 + 20)
@@ -57,7 +63,7 @@ def run(pid, tier):
     cid = 0
     for t in T:
         # one case per (table, group of filters): keeps traces parallel
-        flt = FILTERS if tier == 'thorough' else ['-'] + rnd.sample(FILTERS[1:], 5)
+        flt = FILTERS if tier == 'thorough' else ['-'] + rnd.sample(FILTERS[1:], 5) + [f for f in MUST if f not in FILTERS[:1]]
         total_guess = sum(len(p) + 4 + sum(len(n) + 2 + len(v or '') for n, v in a) + 8 for p, _f, a in t)
         for f in flt:
             if f == '-':
